@@ -152,7 +152,7 @@ def run_shard(ctx):
         prog = case["prog"]
         fs = modelir.features(prog)
         cls = info.get("subset_class", "?")
-        nt = (cls in ("partial_inside_subcall", "whole_subcall_missing", "partial_top")) and (bool(fs & {"vmap", "scan", "cond", "vdist", "call"}) or "dep" in fs)
+        nt = (cls in ("partial_inside_subcall", "whole_subcall_missing", "partial_top")) and (bool(fs & {"vmap", "scan", "cond", "vdist", "call", "nest"}) or "dep" in fs)
         ctx.case(case, nt, [f"C02.subset_{cls}"] + [f"C02.prog_with_{f}" for f in sorted(fs)] + [f"C02.law_{info.get('law', 'none')}"],
                  sample={"program": prog, "args": case["args"], "kwargs": case["kwargs"], "constrained": case["subset"], "info": info})
         for b, w in fails:
@@ -162,6 +162,8 @@ def run_shard(ctx):
     forces = [None, "scan", "vmap", "cond", "vdist", "call"]
     drive(ctx, cases(False, forces[ctx.shard % len(forces)]), n - n // 3, one, "cont")
     drive(ctx, cases(True, forces[(ctx.shard + 1) % len(forces)]), n // 3, one, "disc")
+    nk = modelir.NEST_KINDS  # combinators applied directly to combinators
+    drive(ctx, cases(ctx.shard % 3 == 2, nk[ctx.shard % len(nk)]), P.get("n_nest", max(2, n // 3)), one, "nest")
 
 
 def replay(case):
